@@ -142,7 +142,8 @@ def workload(ctx, R, d, kinds, reps, n_create, n_var):
                     if x is not None:
                         ctx.produced("crossover-lineage", "tree", kind, d, x[0])
                         m = x[0]
-        for rname, mk in (("ge", lambda: GrammaticalEvolutionRepresentation(ctx.g, dec, gene_length=48)),
+        glen = R.choice([5, 48, 48])          # short genomes wrap around, long ones do not
+        for rname, mk in (("ge", lambda: GrammaticalEvolutionRepresentation(ctx.g, dec, gene_length=glen)),
                           ("sge", lambda: StructuredGrammaticalEvolutionRepresentation(ctx.g, dec, gene_length=24))):
             if rname not in reps:
                 continue
